@@ -48,6 +48,9 @@ class Theme:
             for a, b in zip(tab, tab[1:]):
                 if not a < b:
                     raise ThemeError("%s theme: %s table is not strictly increasing at %r, %r" % (self.name, slot, a, b))
+        for name, keys in (("tag keys", self.tagkeys), ("field keys", self.fieldkeys)):
+            if list(keys) != sorted(set(keys)):
+                raise ThemeError("%s theme: %s are not strictly increasing" % (self.name, name))
         if self.regex:
             for slot in ("tag", "meas"):
                 tab = self._unrank[slot]
